@@ -26,6 +26,12 @@ type Standin struct {
 }
 
 var propStandins = map[string][]Standin{
+	"C10": {{
+		Name: "view-stability", Pkg: "internal/index/manager", TestFile: "view_standin_test.go", TestName: "TestC10Standin", OutEnv: "C10_OUT",
+		EnvQuick: []string{"C10_HISTORIES=25", "C10_LEN=12"}, EnvThorough: []string{"C10_HISTORIES=250", "C10_LEN=16"},
+		Bound:   "stability of a view over its lifetime (the copy-on-write discipline of every writer in the manager; only the enumeration kernel of a view is under contract): 25 (quick) / 250 (thorough) seeded histories of 12 / 16 manager calls out of AddTag (mark, tag, service with 6 definitions), mark add / mark delete, definition updates, imports of 4 more streams (up to 16), opening a view (at most 3 alive), releasing a view; every live view is asked again after every call - all streams with byte counts, HasTag for every tag it knew when it was opened, and searches for and against each of these tags - and must answer exactly as it did when it was opened. Background jobs (tagging, merging) run as they come; their interleaving is not controlled",
+		Timeout: 10 * time.Minute,
+	}},
 	"C07": {{
 		Name: "merge-roundtrip", Pkg: "internal/index", TestFile: "roundtrip_standin_test.go", TestName: "TestC01Standin", OutEnv: "C01_OUT",
 		EnvQuick: []string{"C01_MERGE=1", "C01_ROUNDS=60"}, EnvThorough: []string{"C01_MERGE=1", "C01_ROUNDS=600"},
@@ -40,20 +46,20 @@ var propStandins = map[string][]Standin{
 	}},
 	"C04": {{
 		Name: "payload-oracle", Pkg: "internal/index", TestFile: "search_standin_test.go", TestName: "TestC02Standin", OutEnv: "C02_OUT",
-		EnvQuick: []string{"C02_THEN=1", "C02_ANCHORS=1", "C02_ROUNDS=40", "C02_QUERIES=60"}, EnvThorough: []string{"C02_THEN=1", "C02_ANCHORS=1", "C02_ROUNDS=300", "C02_QUERIES=100"},
-		Bound:   "payload filters end to end (expression analysis, shortcut scan, sequence progress across chunks and directions, success/failure accounting, negation): the search-oracle stand-in of C02 (populations of up to 9 stream ids over 1-3 index files, 0-3 payload chunks per stream in either direction out of 10 chunk texts) where half of the payload atoms are THEN chains of 1-3 cdata/sdata elements over 11 expressions (literals, classes, repetition, alternation, fixed and variable length, with literal prefixes and suffixes) plus 8 expressions with assertions (^ $ \\A \\z \\b); compared with a plain left-to-right scan: each element is searched with Go's regexp in its direction's payload from where the previous match ended, and a match ending in chunk i puts the other direction's position after chunk i; also negated and combined with other filters; 40 (quick) / 300 (thorough) populations x 60 / 100 queries. Not generated: variables and captures, data filters without direction inside chains, converter outputs, sub-queries",
+		EnvQuick: []string{"C02_THEN=1", "C02_ANCHORS=1", "C02_ROUNDS=40", "C02_QUERIES=60"}, EnvThorough: []string{"C02_THEN=1", "C02_ANCHORS=1", "C02_ROUNDS=200", "C02_QUERIES=80"},
+		Bound:   "payload filters end to end (expression analysis, shortcut scan, sequence progress across chunks and directions, success/failure accounting, negation): the search-oracle stand-in of C02 (populations of up to 9 stream ids over 1-3 index files, 0-3 payload chunks per stream in either direction out of 10 chunk texts) where half of the payload atoms are THEN chains of 1-3 cdata/sdata elements over 11 expressions (literals, classes, repetition, alternation, fixed and variable length, with literal prefixes and suffixes) plus 8 expressions with assertions (^ $ \\A \\z \\b); compared with a plain left-to-right scan: each element is searched with Go's regexp in its direction's payload from where the previous match ended, and a match ending in chunk i puts the other direction's position after chunk i; also negated and combined with other filters; 40 (quick) / 200 (thorough) populations x 60 / 80 queries. Not generated: variables and captures, data filters without direction inside chains, converter outputs, sub-queries",
 		Timeout: 10 * time.Minute,
 	}},
 	"C03": {{
 		Name: "normal-form-oracle", Pkg: "internal/index", TestFile: "search_standin_test.go", TestName: "TestC02Standin", OutEnv: "C02_OUT",
-		EnvQuick: []string{"C02_THEN=1", "C02_ROUNDS=25", "C02_QUERIES=60"}, EnvThorough: []string{"C02_THEN=1", "C02_TAGS=1", "C02_ROUNDS=200", "C02_QUERIES=100"},
-		Bound:   "the meaning of the normal form end to end (the parts of normalisation that are not under contract: And, the clean* rewrites, time/flag/data atoms, THEN sequences and their negation, translation from text): generated query expressions of depth <= 3 over id/port/bytes/host(/mask)/protocol/time/data filters and THEN chains with AND, OR, NOT, lists and ranges are parsed, normalised and searched over generated populations (25 (quick) / 200 (thorough) populations x 60 / 100 queries); the streams found must be exactly those the expression as written accepts when evaluated directly on the stream's attributes and payload",
+		EnvQuick: []string{"C02_THEN=1", "C02_ROUNDS=25", "C02_QUERIES=60"}, EnvThorough: []string{"C02_THEN=1", "C02_TAGS=1", "C02_ROUNDS=150", "C02_QUERIES=80"},
+		Bound:   "the meaning of the normal form end to end (the parts of normalisation that are not under contract: And, the clean* rewrites, time/flag/data atoms, THEN sequences and their negation, translation from text): generated query expressions of depth <= 3 over id/port/bytes/host(/mask)/protocol/time/data filters and THEN chains with AND, OR, NOT, lists and ranges are parsed, normalised and searched over generated populations (25 (quick) / 150 (thorough) populations x 60 / 80 queries); the streams found must be exactly those the expression as written accepts when evaluated directly on the stream's attributes and payload",
 		Timeout: 10 * time.Minute,
 	}},
 	"C06": {{
 		Name: "tag-search", Pkg: "internal/index", TestFile: "search_standin_test.go", TestName: "TestC02Standin", OutEnv: "C02_OUT",
-		EnvQuick: []string{"C02_TAGS=1", "C02_ROUNDS=40", "C02_QUERIES=60"}, EnvThorough: []string{"C02_TAGS=1", "C02_ROUNDS=300", "C02_QUERIES=100"},
-		Bound:   "searches that use tag filters while tags are partly undecided (sequential: no job runs during a search): the search-oracle stand-in of C02 (populations of up to 9 stream ids over 1-3 index files, generated queries, sort keys, limits, pages) with three tags tag/ta, tag/tb, tag/tc per population - random decided-match sets, random undecided sets (with stale match bits under undecided streams), generated definitions of depth <= 2 that may name earlier tags - passed to SearchStreams as TagDetails; a tag filter must select a decided stream by its match bit and an undecided stream by the tag's definition, also under negation, in conjunctions of all three tags and through tags that name tags; 40 (quick) / 300 (thorough) populations x 60 / 100 queries. Not covered: interleavings of job completions with API calls (the property's main quantifier), imports, marks, converters",
+		EnvQuick: []string{"C02_TAGS=1", "C02_ROUNDS=40", "C02_QUERIES=60"}, EnvThorough: []string{"C02_TAGS=1", "C02_ROUNDS=200", "C02_QUERIES=80"},
+		Bound:   "searches that use tag filters while tags are partly undecided (sequential: no job runs during a search): the search-oracle stand-in of C02 (populations of up to 9 stream ids over 1-3 index files, generated queries, sort keys, limits, pages) with three tags tag/ta, tag/tb, tag/tc per population - random decided-match sets, random undecided sets (with stale match bits under undecided streams), generated definitions of depth <= 2 that may name earlier tags - passed to SearchStreams as TagDetails; a tag filter must select a decided stream by its match bit and an undecided stream by the tag's definition, also under negation, in conjunctions of all three tags and through tags that name tags; 40 (quick) / 200 (thorough) populations x 60 / 80 queries. Not covered: interleavings of job completions with API calls (the property's main quantifier), imports, marks, converters",
 		Timeout: 10 * time.Minute,
 	}},
 	"C11": {{
@@ -64,8 +70,8 @@ var propStandins = map[string][]Standin{
 	}},
 	"C02": {{
 		Name: "search-oracle", Pkg: "internal/index", TestFile: "search_standin_test.go", TestName: "TestC02Standin", OutEnv: "C02_OUT",
-		EnvQuick: []string{"C02_ROUNDS=40", "C02_QUERIES=60"}, EnvThorough: []string{"C02_ROUNDS=300", "C02_QUERIES=100"},
-		Bound:   "the search pipeline as a whole (parser, normal form, per-index filters and lookups, scan strategies, sorted limited accumulator, paging): 40 (quick) / 300 (thorough) seeded populations of up to 9 stream ids spread over 1-3 index files with shadowed older versions (IPv4 and IPv6 hosts, 5 ports, 0-3 payload chunks in either direction, TCP/UDP), each with 60 / 100 generated queries of depth <= 3 over id/port/bytes/host(/mask)/protocol/time/data filters with AND, OR, NOT, value lists and ranges, 0-2 sort keys, limits {0,1,2,3,5,100} and pages; the result (ids, each once, newest version, order, page, more-flag) is compared with a direct evaluation of the query on the visible streams. Not generated: THEN sequences, sub-queries, variables, tags, converters, grouping, doubly negated value lists (their normal form takes hours)",
+		EnvQuick: []string{"C02_ROUNDS=40", "C02_QUERIES=60"}, EnvThorough: []string{"C02_ROUNDS=200", "C02_QUERIES=80"},
+		Bound:   "the search pipeline as a whole (parser, normal form, per-index filters and lookups, scan strategies, sorted limited accumulator, paging): 40 (quick) / 200 (thorough) seeded populations of up to 9 stream ids spread over 1-3 index files with shadowed older versions (IPv4 and IPv6 hosts, 5 ports, 0-3 payload chunks in either direction, TCP/UDP), each with 60 / 80 generated queries of depth <= 3 over id/port/bytes/host(/mask)/protocol/time/data filters with AND, OR, NOT, value lists and ranges, 0-2 sort keys, limits {0,1,2,3,5,100} and pages; the result (ids, each once, newest version, order, page, more-flag) is compared with a direct evaluation of the query on the visible streams. Not generated: THEN sequences, sub-queries, variables, tags, converters, grouping, doubly negated value lists (their normal form takes hours)",
 		Timeout: 10 * time.Minute,
 	}},
 	"C17": {{
@@ -113,7 +119,11 @@ func runStandin(sd Standin, tier string) standinResult {
 	ovPath := filepath.Join(tmp, "overlay.json")
 	os.WriteFile(ovPath, ovData, 0o644)
 	out := filepath.Join(tmp, "out.json")
-	cmd := exec.Command("go", "test", "-overlay", ovPath, "-vet=off", "-count=1", "-timeout", fmt.Sprintf("%ds", int(sd.Timeout.Seconds())), "-run", "^"+sd.TestName+"$", "./"+sd.Pkg)
+	timeout := sd.Timeout
+	if tier == "thorough" {
+		timeout *= 5 // the thorough bounds are 5-12 times larger
+	}
+	cmd := exec.Command("go", "test", "-overlay", ovPath, "-vet=off", "-count=1", "-timeout", fmt.Sprintf("%ds", int(timeout.Seconds())), "-run", "^"+sd.TestName+"$", "./"+sd.Pkg)
 	cmd.Dir = repoRoot
 	env := append(os.Environ(), sd.OutEnv+"="+out)
 	if tier == "thorough" {
